@@ -8,6 +8,7 @@ import (
 	"math/big"
 	"sync/atomic"
 
+	"github.com/xelaj/mtproto/zverif/sched"
 	"github.com/xelaj/mtproto/zverif/vrand"
 )
 
@@ -24,7 +25,14 @@ var FailAt int64
 var ScriptAt int64
 var Script byte
 
+// YieldOnRead: under the scheduler a read of the OS source is a scheduling point (the read may block: getrandom
+// waits for the entropy pool), so that another thread can run while this one is inside the read.
+var YieldOnRead bool
+
 func (reader) Read(p []byte) (int, error) {
+	if YieldOnRead && sched.Active() != nil {
+		sched.Yield("os-random-read")
+	}
 	if atomic.LoadInt64(&ScriptAt) > 0 {
 		if atomic.AddInt64(&ScriptAt, -1) == 0 {
 			for i := range p {
